@@ -20,6 +20,9 @@ type LogSchema struct {
 	OnLocated  func(index int) // optional callback invoked after successful CreateFieldLocator calls
 }
 
+// maxSchemaFields is the largest number of fields a record may have: outputs write a 16-bit map header
+const maxSchemaFields = 65535
+
 // VerifyMetricKeyName checks that a field name can be part of a metric label name ("key_<name>"), as needed for
 // orchestration keys and metric keys
 func VerifyMetricKeyName(name string) error {
@@ -43,6 +46,9 @@ func MustNewLogSchema(fieldNames []string) LogSchema {
 
 // NewLogSchema creates a new LogSchema with field names and environment field names.
 func NewLogSchema(fieldNames []string, maxFields int) (LogSchema, error) {
+	if maxFields > maxSchemaFields {
+		return LogSchema{}, fmt.Errorf("maxFields (%d) must not exceed %d", maxFields, maxSchemaFields)
+	}
 	if maxFields < len(fieldNames) {
 		return LogSchema{}, fmt.Errorf("maxFields (%d) must be equal or greater than the number of field names (%d)", maxFields, len(fieldNames))
 	}
